@@ -233,5 +233,25 @@ def engine_selftest():
         expect("contradictory_precondition_is_reported_as_vacuous", bool(notes.get("vacuous")))
     except wp.Unsupported as e:
         expect("contradictory_precondition_is_reported_as_vacuous", "contradictory" in str(e))
+    # zip loop: runs over the shorter of the two arrays, targets are the k-th elements
+    def zip_spec(upto):
+        def post(old, new, res):
+            n = upto(old)
+            return [("sums", z3.ForAll([k], z3.Implies(inb(k, n), new.sel("out", k) == old.sel("a", k) + old.sel("b", k)), patterns=[new.sel("out", k)]))]
+
+        def inv(old, now, i):
+            return [z3.ForAll([k], z3.Implies(inb(k, i), now.sel("out", k) == old.sel("a", k) + old.sel("b", k)), patterns=[now.sel("out", k)]), now["idx"] == i]
+
+        return wp.FnSpec(T.zip_copy, [("a", "arr1"), ("b", "arr1"), ("out", "arr1")], lambda env: [env.shape("out") >= env.shape("a"), env.shape("out") >= env.shape("b")], ("out",), post, {0: inv})
+
+    shorter = lambda old: z3.If(old.shape("a") < old.shape("b"), old.shape("a"), old.shape("b"))  # noqa: E731
+    expect("zip_loop_covers_the_shorter_array", all_proved(zip_spec(shorter)))
+    expect("zip_loop_does_not_cover_the_longer_array", some_not_proved(zip_spec(lambda old: old.shape("a")), "post.sums"))
+    # complex arithmetic: (2 + i x)(-i) = x - 2i
+    def cx_spec(re, im):
+        return wp.FnSpec(T.complex_parts, [("a", "arr1"), ("out", "arr1")], lambda env: [env.shape("a") >= 1, env.shape("out") >= 2], ("out",), lambda old, new, res: [("parts", z3.And(new.sel("out", 0) == re(old), new.sel("out", 1) == im(old)))], {})
+
+    expect("complex_product_real_and_imaginary_part", all_proved(cx_spec(lambda old: old.sel("a", 0), lambda old: z3.RealVal(-2))))
+    expect("complex_product_wrong_sign_is_rejected", some_not_proved(cx_spec(lambda old: old.sel("a", 0), lambda old: z3.RealVal(2)), "post.parts"))
     bad = [n for n, ok in results if not ok]
     return [{"name": "proof_rules_accept_and_reject_as_they_must_on_toy_functions", "ok": not bad, "engine": True, "detail": f"{len(results)} rule tests; failed: {bad}", "function": "pyvc.wp", "backend": "selftest", "strength": "B"}]
